@@ -224,7 +224,9 @@ func (n *VerifC33RelayNode) runSendRoutine() {
 // packet was enqueued to.
 func (n *VerifC33RelayNode) OnPacketFrom(idx int, role int, src []byte, dest, ttl byte, hash uint64, isRelay bool) (string, []int) {
 	p := n.peers[idx]
-	p.setRole(PeerRoleFlag(role))
+	if role >= 0 { // role < 0: keep the role the node itself maintains for the peer
+		p.setRole(PeerRoleFlag(role))
+	}
 	pkt := &Packet{
 		protocol:     verifC33Proto,
 		subProtocol:  module.ProtocolInfo(0x0100),
@@ -430,3 +432,18 @@ func (n *VerifC33Node) OnPacketConcurrent(g int, src []byte, hash uint64) int {
 	done.Wait()
 	return int(delivered)
 }
+
+
+// SetValidators: manager.SetRole(version, RoleValidator, ids...) - the call the
+// consensus makes when the validator set changes.
+func (n *VerifC33RelayNode) SetValidators(version int64, ids [][]byte) {
+	pids := make([]module.PeerID, len(ids))
+	for i, id := range ids {
+		pids[i] = NewPeerID(id)
+	}
+	n.ph.m.SetRole(version, module.RoleValidator, pids...)
+}
+
+// PeerRole / SelfRole: the role flags the node currently keeps.
+func (n *VerifC33RelayNode) PeerRole(idx int) int { return int(n.peers[idx].Role()) }
+func (n *VerifC33RelayNode) SelfRole() int        { return int(n.p2p.Role()) }
